@@ -111,6 +111,13 @@ def op_pick(w, ins):
         care_k = set(mask_to_ks(mode, dec))
         if ins.get('superset'):
             care_k |= sup
+        if ins.get('undeclared'):
+            # a care variable that the manager does not declare (doc.md:
+            # `bdd.declare('x', 'y'); bdd.pick_iter(u, ['x', 'y', 'z'])`)
+            extra = [k for k in range(w.nv) if k not in dec]
+            if extra:
+                care_k.add(extra[ins['undeclared'] % len(extra)])
+                w.stats['pick_care_undeclared'] += 1
         care_arg = {w.names[k] for k in care_k}
         kind = ins.get('cont', 0)
         if kind == 1:
@@ -754,7 +761,8 @@ def gen_pick(w, r, cfg):
     x = r.random()
     care = None if x < 0.35 else r.randrange(1 << w.nv)
     return dict(op='pick', a=_ri(r), care=care, superset=r.randrange(2), iter=r.random() < 0.7, how=r.randrange(2),
-                cont=r.choice([0, 0, 1, 2]), overlap=r.choice([0, 0, 0, 1, 2, 3]), b=_ri(r))
+                cont=r.choice([0, 0, 1, 2]), overlap=r.choice([0, 0, 0, 1, 2, 3]), b=_ri(r),
+                undeclared=r.choice([0, 0, 0, 1, 2]))
 
 
 def gen_copy(w, r, cfg):
